@@ -1080,6 +1080,10 @@ func (f *formatter) ExprArrayItem(n *ast.ExprArrayItem) {
 		f.addFreeFloating(token.T_WHITESPACE, []byte(" "))
 	}
 
+	if n.AmpersandTkn != nil {
+		n.AmpersandTkn = f.newToken('&', []byte("&"))
+	}
+
 	if n.Val != nil {
 		n.Val.Accept(f)
 	}
